@@ -71,6 +71,7 @@ def rules(ck, P):
         ck.check(okc, "E-COMP", fn["q"] + "|" + path, "%s: each source's blob is decoded with that source's declared compression before merging (%s)" % (path, desc),
                  "%s: blobs are not decoded with the producing source's declared compression (%s)" % (path, desc), ir.loc(fn))
     b = builds[0]
+    comp.sources_in_list_order(ck, "R-GROUP", "merge", b, adt)
     newp = [n for n in ir.walk_nodes(b["body"]) if n.get("k") == "call" and (n.get("q") or "").endswith("TilesReaderParameters::new")]
     lets = comp.lets_of(b)
     oku = False
